@@ -77,6 +77,14 @@ def apply_pre(a, pre):
                 a = a.replace_var_reference(old, HplVarReference('@' + new))
             elif step.startswith('this_to_var:'):
                 a = rw.replace_this_with_var(a, step.split(':')[1])
+            elif step.startswith('widen_calls:'):
+                # meaning changes (no check with a semantic oracle uses this step): totality and queries only
+                from hplverif import lib as _lib
+
+                b = _lib.widen_calls(a, int(step.split(':')[1]))
+                if b is a:
+                    return None
+                a = b
             elif step == 'this_var_this':
                 a = rw.replace_var_with_this(rw.replace_this_with_var(a, 'V9'), 'V9')
             else:
